@@ -9,7 +9,7 @@ from __future__ import annotations
 
 import ast
 
-from ..astutil import ancestors, calls_in, dotted, enclosing_stmt, src, walk_local
+from ..astutil import deref, ancestors, calls_in, dotted, enclosing_stmt, src, walk_local
 from ..loader import AnalysisError
 from ..terms import NONE, Evaluator, alts, contains, find, show, strip_sites, walk
 from .c12 import _delegates
@@ -201,6 +201,48 @@ def r4_debt_lock(ctx):
         ctx.check(not bad, 'C20.R4', f'{func_label(m)}|debt-not-touched-elsewhere', loc(m, m.node), f'{m.name} does not touch the debt fields', f'{m.name} touches the debt fields outside their lock')
 
 
+def _shortfall_shape(f, pause_call, m, limit):
+    """the pause argument is max(N / limiter.<limit> - (t1 - t0), 0) with N the size moved by the wrapped call,
+    t0 / t1 the clock read before / after it - local names are followed to their (single) definitions"""
+    from ..cfg import cfg_of
+
+    fn = f.node
+    D = lambda e: deref(fn, e)
+    a = D(pause_call.args[0]) if pause_call.args else None
+    if not (isinstance(a, ast.Call) and dotted(a.func) == 'max' and len(a.args) == 2 and not a.keywords):
+        return False
+    x, z = D(a.args[0]), D(a.args[1])
+    if isinstance(x, ast.Constant):
+        x, z = z, x
+    if not (isinstance(z, ast.Constant) and z.value == 0 and isinstance(x, ast.BinOp) and isinstance(x.op, ast.Sub)):
+        return False
+    exp, real = D(x.left), D(x.right)
+    if not (isinstance(exp, ast.BinOp) and isinstance(exp.op, ast.Div) and isinstance(real, ast.BinOp) and isinstance(real.op, ast.Sub)):
+        return False
+    den = D(exp.right)
+    if not (isinstance(den, ast.Attribute) and den.attr == limit):
+        return False
+    num = D(exp.left)
+    w = D(num.args[0]) if isinstance(num, ast.Call) and dotted(num.func) == 'len' and len(num.args) == 1 else num
+    if not (isinstance(w, ast.Call) and isinstance(w.func, ast.Attribute) and w.func.attr == m):
+        return False
+    if m == 'read' and w is num:
+        return False  # bytes read = len(result)
+    if m == 'write' and w is not num:
+        return False  # bytes written = the wrapped call's result
+    t1, t0 = D(real.left), D(real.right)
+    clock = lambda c: isinstance(c, ast.Call) and (dotted(c.func) or '').endswith(('perf_counter', 'monotonic')) and not c.args
+    if not (clock(t1) and clock(t0) and t1 is not t0):
+        return False
+    cfg = cfg_of(fn)
+    s0, sw, s1 = enclosing_stmt(t0), enclosing_stmt(w), enclosing_stmt(t1)
+    n0, nw, n1 = cfg.nodes_of(s0, 'stmt'), cfg.nodes_of(sw, 'stmt'), cfg.nodes_of(s1, 'stmt')
+    if not (n0 and nw and n1):
+        return False
+    # the clock is read before the wrapped call and again after it
+    return all(cfg.set_dominates(n0, x_) for x_ in nw) and all(cfg.set_dominates(nw, x_) for x_ in n1) and s0 is not sw and s1 is not sw
+
+
 def r5_wrapper(ctx):
     corpus = ctx.corpus
     w = corpus.cls('utils', '_RateLimitedFileWrapper')
@@ -218,22 +260,7 @@ def r5_wrapper(ctx):
         ctx.check(not stores, 'C20.R5', f'{func_label(f)}|wrapper-stateless', loc(f, f.node), f'{m}: the wrapper keeps no state between calls (no banked credit)', f'{m}: the wrapper stores state (`{src(stores[0], 50) if stores else ""}`): time "saved" by one slow call can be spent as unthrottled bytes later')
         pauses = [c for c in calls_in(f.node) if isinstance(c.func, ast.Attribute) and c.func.attr == pause]
         uncond = len(pauses) == 1 and getattr(enclosing_stmt(pauses[0]), '_parent', None) is f.node
-        shape = False
-        if pauses:
-            a = pauses[0].args[0] if pauses[0].args else None
-            if isinstance(a, ast.Call) and dotted(a.func) == 'max' and len(a.args) == 2:
-                x, z = a.args
-                if isinstance(z, ast.Constant) and z.value == 0 and isinstance(x, ast.BinOp) and isinstance(x.op, ast.Sub) and isinstance(x.left, ast.Name) and isinstance(x.right, ast.Name):
-                    exp_def = [s for s in f.node.body if isinstance(s, ast.Assign) and isinstance(s.targets[0], ast.Name) and s.targets[0].id == x.left.id]
-                    real_def = [s for s in f.node.body if isinstance(s, ast.Assign) and isinstance(s.targets[0], ast.Name) and s.targets[0].id == x.right.id]
-                    if exp_def and real_def:
-                        ev_ = exp_def[0].value
-                        wrapped = [s_ for s_ in f.node.body if isinstance(s_, ast.Assign) and isinstance(s_.value, ast.Call) and isinstance(s_.value.func, ast.Attribute) and s_.value.func.attr == m and isinstance(s_.targets[0], ast.Name)]
-                        wname = wrapped[0].targets[0].id if wrapped else None
-                        okexp = isinstance(ev_, ast.BinOp) and isinstance(ev_.op, ast.Div) and isinstance(ev_.right, ast.Attribute) and ev_.right.attr == limit and (src(ev_.left) in (f'len({wname})', f'{wname}'))
-                        rv = real_def[0].value
-                        okreal = isinstance(rv, ast.BinOp) and isinstance(rv.op, ast.Sub) and 'perf_counter' in src(rv.left) and isinstance(rv.right, ast.Name)
-                        shape = okexp and okreal
+        shape = _shortfall_shape(f, pauses[0], m, limit) if pauses else False
         ctx.check(
             uncond and shape,
             'C20.R5',
